@@ -29,6 +29,24 @@ type plug struct {
 	ms     appencryption.Metastore
 	revoke func(id string, created int64) bool
 	close  func()
+	tbl    *ddb.Table
+	sqldb  *sqlmini.DB
+}
+
+// DDB returns the fake DynamoDB table behind a dynamodb-v1/v2 world (nil otherwise).
+func (w *World) DDB() *ddb.Table {
+	if w.plug == nil {
+		return nil
+	}
+	return w.plug.tbl
+}
+
+// SQL returns the mini SQL database behind an sql world (nil otherwise).
+func (w *World) SQL() *sqlmini.DB {
+	if w.plug == nil {
+		return nil
+	}
+	return w.plug.sqldb
 }
 
 // mirror sends every call to the plug-in (the SDK sees exactly the plug-in's behaviour) and copies every accepted
@@ -66,19 +84,19 @@ func NewOn(secretImpl, backend string) *World {
 		return w
 	case "dynamodb-v1":
 		t := ddb.NewTable("EncryptionKey")
-		w.plug = &plug{backend, v1p.NewDynamoDBMetastore(v1sess, v1p.WithClient(ddb.V1{T: t})), t.SetRevoked, nil}
+		w.plug = &plug{backend, v1p.NewDynamoDBMetastore(v1sess, v1p.WithClient(ddb.V1{T: t})), t.SetRevoked, nil, t, nil}
 	case "dynamodb-v2":
 		t := ddb.NewTable("EncryptionKey")
 		ms, err := v2m.NewDynamoDB(v2m.WithDynamoDBClient(ddb.V2{T: t}))
 		if err != nil {
 			panic(err)
 		}
-		w.plug = &plug{backend, ms, t.SetRevoked, nil}
+		w.plug = &plug{backend, ms, t.SetRevoked, nil, t, nil}
 	case "sql":
 		// the SQL metastore over the mini SQL engine behind database/sql (MySQL placeholder dialect)
 		db, h := sqlmini.Open(sqlmini.MySQL)
 		h.SetMaxOpenConns(4)
-		w.plug = &plug{backend, persistence.NewSQLMetastore(h), db.SetRevoked, func() { h.Close(); db.Drop() }}
+		w.plug = &plug{backend, persistence.NewSQLMetastore(h), db.SetRevoked, func() { h.Close(); db.Drop() }, nil, db}
 	default:
 		panic("unknown back end " + backend)
 	}
